@@ -24,7 +24,7 @@ def exec (a : List String) : String :=
     if off == "-" then "ACCEPT"
     else
       let bs := (C14.bytesOfHex hex).toList
-      let (l, c) := YamlPos.lineCol bs (parseNat off)
+      let (l, c) := YamlVPos.lineCol bs (parseNat off)
       s!"{l}:{c}"
   | _ => "BAD-OP"
 
